@@ -751,7 +751,9 @@ def simplify_constrained_range(source: str) -> str:
         ),)
         templates = (gt_template, lt_template, gte_template, lte_template, eq_template)
 
-        if core.match_template(step, ast.Constant(value=int)) and step.value < 0:
+        if step != 1:
+            # Raising start to a bound is only equivalent if every integer after it is visited;
+            # range(0, 10, 2) if x > 2 is not range(3, 10, 2).
             continue
 
         redundant_conditions = set()
